@@ -30,13 +30,13 @@ const rule = "case = (chain length, result vector, decorations, validator error,
 
 // Case is the replay format.
 type Case struct {
-	Vector   []int  `json:"vector"`   // per chain position (leaf first): 0 Unknown 1 OK 2 NonRevokable 3 Revoked, 7 = out-of-range status
-	Decor    []int  `json:"decor"`    // per position decoration selector
-	ValErr   bool   `json:"valErr"`   // validator-level error
-	Iface    string `json:"iface"`    // validator | client
-	Action   string `json:"action"`   // enforce | log | skip
-	Base     string `json:"base"`     // base level the action is expressed through
-	Scheme   string `json:"scheme"`   // x509 | sa
+	Vector   []int  `json:"vector"` // per chain position (leaf first): 0 Unknown 1 OK 2 NonRevokable 3 Revoked, 7 = out-of-range status
+	Decor    []int  `json:"decor"`  // per position decoration selector
+	ValErr   bool   `json:"valErr"` // validator-level error
+	Iface    string `json:"iface"`  // validator | client
+	Action   string `json:"action"` // enforce | log | skip
+	Base     string `json:"base"`   // base level the action is expressed through
+	Scheme   string `json:"scheme"` // x509 | sa
 	Format   string `json:"format"`
 	NilEntry bool   `json:"-"`
 }
